@@ -129,7 +129,7 @@ theorem idle_getD_rank (W : Mat) (locks : List Bool) (s : Nat) (hW : W.length = 
   unfold idle
   rw [List.getD_eq_getElem?_getD, List.getElem?_map, List.getElem?_eq_getElem hlt]
   simp only [Option.map_some, Option.getD_some]
-  have := keep_getD_rank ([] : Row) locks W s hs
+  have := keep_getD_rank_c03 ([] : Row) locks W s hs
   rw [List.getD_eq_getElem?_getD, List.getElem?_eq_getElem hlt] at this
   simp only [Option.getD_some] at this
   rw [this]
@@ -384,7 +384,7 @@ theorem idle_row_vanish (W : Mat) (locks : List Bool) (hW : W.length = locks.len
     rcases Nat.lt_or_ge c0 z with h | h
     · have := rank_lt_of_idle_lt locks hc0 h; omega
     · exact h
-  rw [idle_getD_rank W locks s hW hs, ← hrc, keep_getD_rank 0 locks _ c0 hc0]
+  rw [idle_getD_rank W locks s hW hs, ← hrc, keep_getD_rank_c03 0 locks _ c0 hc0]
   exact hvan c0 hz
 
 /-- If the permanent of the idle block is non-zero, then the idle rows sitting in slots `< z`
